@@ -83,9 +83,11 @@ class disjoint_set_impl {
       }
       Visitor *vis = nullptr;
 
+      YGM_VERIF_DS_VISIT(0, Visitor, *rank_parent_pair_iter, args...);
       ygm::meta::apply_optional(
           *vis, std::make_tuple(p_dset),
           std::forward_as_tuple(*rank_parent_pair_iter, args...));
+      YGM_VERIF_DS_VISIT(1, Visitor, *rank_parent_pair_iter, args...);
     };
 
     m_comm.async(dest, visit_wrapper, pthis, item,
